@@ -70,6 +70,10 @@ type caseIn struct {
 	ExpiryMs     int  `json:"expiryms,omitempty"`     // WithUpstreamExpiryInterval (0 = the default, 10 s)
 	AckTimeoutMs int  `json:"acktimeoutms,omitempty"` // WithUpstreamAckTimeout (0 = the default: none)
 	SliceMode int     `json:"slicemode,omitempty"` // 1 reuse one slice, 2 windows of one array, 3 fresh slices; 0 = derived
+	// ElMode: ElapsedTime of successive points (write order per data id must be kept whatever the elapsed
+	// times are): 1 strictly increasing, 2 random in -4..19 (duplicates, negative values), 3 strictly
+	// decreasing, 4 sawtooth 30,10,20,7,3,5,5 (+40 per round); 0 = derived from the case (elmode())
+	ElMode int `json:"elmode,omitempty"`
 }
 
 // ---------------------------------------------------------------- wrappers
@@ -396,6 +400,28 @@ func j2mode(c *caseIn) uint64 {
 		return uint64(c.SliceMode - 1)
 	}
 	return uint64(len(c.Steps)+len(c.Rev0)+c.Thresh) % 3
+}
+
+// elmode derives the elapsed-time discipline from the case itself (stable under -replay)
+func elmode(c *caseIn) int {
+	if c.ElMode > 0 {
+		return c.ElMode - 1
+	}
+	return (len(c.Steps) + 2*len(c.Rev0) + c.Thresh) % 4
+}
+
+// elOf is the ElapsedTime of the n-th point (n from 1) of a case
+func elOf(mode int, n uint64, r *rng.R) int64 {
+	switch mode {
+	case 1:
+		return int64(r.Intn(24)) - 4
+	case 2:
+		return 1_000_000 - int64(n)
+	case 3:
+		k := n - 1
+		return []int64{30, 10, 20, 7, 3, 5, 5}[k%7] + 40*int64(k/7)
+	}
+	return int64(n)
 }
 
 func expiryOpt(c *caseIn) iscp.UpstreamOption {
@@ -727,7 +753,7 @@ func runCase(c *caseIn, r *rng.R) (res result) {
 		start := len(backing)
 		for i, ln := range lens {
 			elapsed++
-			p := &message.DataPoint{ElapsedTime: time.Duration(elapsed), Payload: r.Bytes(ln)}
+			p := &message.DataPoint{ElapsedTime: time.Duration(elOf(elmode(c), elapsed, r)), Payload: r.Bytes(ln)}
 			switch {
 			case mode == 0 && i < len(reuseBuf):
 				reuseBuf[i] = p
